@@ -324,6 +324,7 @@ class ConcreteMode(BaseMode):
     def approx(self, got, want, rel, label, key=None, detail=""):
         self.n_obl += 1
         a, b = self._num(got), self._num(want)
+        rel = float(Fraction(rel))
         ok = abs(a - b) <= rel * abs(b) + self.ATOL
         if not ok:
             self.failures.append(Failure(label, self.key(label, key), detail or f"approx: got {a!r} want {b!r}", self.values, kind="concrete"))
